@@ -80,6 +80,59 @@ fn digits(r: &mut Rng, n: usize, out: &mut Vec<u8>) {
     }
 }
 
+/// exact decimal digits of the midpoint between the double with these bits and its successor:
+/// returns (digits without leading/trailing zeros, exp10) with value = 0.d1d2.. x 10^exp10
+fn midpoint_digits(bits: u64) -> (Vec<u8>, i64) {
+    let be = (bits >> 52) & 0x7ff;
+    let frac = bits & ((1u64 << 52) - 1);
+    let (m, e) = if be == 0 { (frac, -1074i64) } else { (frac | (1u64 << 52), be as i64 - 1075) };
+    // midpoint = (2m+1) * 2^(e-1)
+    let n = 2 * (m as u128) + 1;
+    let e2 = e - 1;
+    // big number in base 10^9, little endian
+    let mut big: Vec<u64> = Vec::new();
+    let mut t = n;
+    while t > 0 {
+        big.push((t % 1_000_000_000) as u64);
+        t /= 1_000_000_000;
+    }
+    let mul = |big: &mut Vec<u64>, f: u64| {
+        let mut carry = 0u64;
+        for d in big.iter_mut() {
+            let v = *d * f + carry;
+            *d = v % 1_000_000_000;
+            carry = v / 1_000_000_000;
+        }
+        while carry > 0 {
+            big.push(carry % 1_000_000_000);
+            carry /= 1_000_000_000;
+        }
+    };
+    let mut shift10 = 0i64;
+    if e2 >= 0 {
+        for _ in 0..e2 {
+            mul(&mut big, 2);
+        }
+    } else {
+        // n / 2^k = n * 5^k / 10^k
+        for _ in 0..(-e2) {
+            mul(&mut big, 5);
+        }
+        shift10 = e2;
+    }
+    let mut s = String::new();
+    for (i, d) in big.iter().rev().enumerate() {
+        if i == 0 {
+            s.push_str(&format!("{}", d));
+        } else {
+            s.push_str(&format!("{:09}", d));
+        }
+    }
+    let total = s.len() as i64;
+    let digits: Vec<u8> = s.trim_end_matches('0').as_bytes().to_vec();
+    (digits, total + shift10)
+}
+
 pub fn gen(seed: u64, thorough: bool) {
     let mut out = Out::new();
     let mut r = Rng::new(seed ^ 0x07);
@@ -154,6 +207,72 @@ pub fn gen(seed: u64, thorough: bool) {
         emit(format!("{:.16e}", x).as_bytes());
         emit(format!("{:.17e}", x).as_bytes());
         emit(format!("{:.20e}", (x + y) / 2.0).as_bytes());
+    }
+    // literals next to the exact midpoint of two adjacent doubles: the midpoint itself (a tie), its
+    // truncation to 16..19 significant digits (just below) and that plus one unit in the last
+    // place (just above), written with a fraction and with an integer mantissa
+    let n_mid = if thorough { 6000 } else { 500 };
+    for k in 0..n_mid {
+        let bits = if k % 4 == 0 {
+            // around 2^52..2^64 and other integers
+            ((1075 + r.below(12) as u64) << 52) | (r.next() >> 12)
+        } else {
+            (r.next() >> 1) % 0x7fe0_0000_0000_0000
+        };
+        let x = f64::from_bits(bits);
+        if !x.is_finite() || x == 0.0 {
+            continue;
+        }
+        let (digits, exp10) = midpoint_digits(bits);
+        // value = 0.d1d2d3... x 10^exp10
+        for nd in [16usize, 17, 18, 19] {
+            if digits.len() <= nd {
+                continue;
+            }
+            let below: Vec<u8> = digits[..nd].to_vec();
+            let mut above = below.clone();
+            let mut i = nd;
+            loop {
+                if i == 0 {
+                    above.insert(0, b'1');
+                    break;
+                }
+                i -= 1;
+                if above[i] == b'9' {
+                    above[i] = b'0';
+                } else {
+                    above[i] += 1;
+                    break;
+                }
+            }
+            for (m, extra) in [(&below, 0i64), (&above, (above.len() - nd) as i64)] {
+                let e = exp10 + extra;
+                // d.ddd e(E-1)
+                let mut t = vec![m[0], b'.'];
+                t.extend_from_slice(&m[1..]);
+                t.extend_from_slice(format!("e{}", e - 1).as_bytes());
+                emit(&t);
+                if nd >= 18 || k % 3 == 0 {
+                    // integer mantissa
+                    let mut t = m.to_vec();
+                    t.extend_from_slice(format!("e{}", e - m.len() as i64).as_bytes());
+                    emit(&t);
+                }
+                if e > 0 && (e as usize) < m.len() && k % 2 == 0 {
+                    // plain decimal
+                    let mut t = m[..e as usize].to_vec();
+                    t.push(b'.');
+                    t.extend_from_slice(&m[e as usize..]);
+                    emit(&t);
+                }
+            }
+        }
+        if digits.len() < 780 && k % 5 == 0 {
+            let mut t = vec![digits[0], b'.'];
+            t.extend_from_slice(&digits[1..]);
+            t.extend_from_slice(format!("e{}", exp10 - 1).as_bytes());
+            emit(&t);
+        }
     }
     // 19/20-digit integer boundaries
     for base in [9223372036854775807u128, 18446744073709551615u128, 9999999999999999999u128, 10000000000000000000u128, 99999999999999999999u128] {
